@@ -22,7 +22,7 @@ def conc(v):
     k = v["k"]
     if k == "int":
         lo, hi = W[v["w"]]
-        return {"k": "int", "w": v["w"], "v": str(hi if v["v"] == "max" else lo)}
+        return {"k": "int", "w": v["w"], "v": str(hi if v["v"] == "max" else -1 if v["v"] == "m1" else lo)}
     if k in ("char", "str"):
         return {"k": k, "v": TEXT[v["v"]]}
     if k in ("bool", "f64", "f32", "unit", "none"):
@@ -52,7 +52,7 @@ def shown(p):
         return TEXT[rest]
     w, _, v = rest.partition(":")
     lo, hi = W[w]
-    return str(hi if v == "max" else lo)
+    return str(hi if v == "max" else -1 if v == "m1" else lo)
 
 
 def tyname(ty):
@@ -130,7 +130,9 @@ def run(tier):
     if len(set(outs)) != 1 or not (0 <= outs[0].find("a") < outs[0].find("b") < outs[0].find("c")):
         C.violation({"kind": "sorted-keys"}, "maps built in different insertion orders print %s" % outs, {"outs": outs})
     # the same for every key kind, repeatedly (an unsorted print would follow the per-map random iteration order)
-    for kt, keys in (("bool", [{"k": "bool", "v": True}, {"k": "bool", "v": False}]), ("i32", [{"k": "int", "w": "i32", "v": str(x)} for x in (5, -3, 0)]),
+    import re as _re
+    for kt, keys in (("bool", [{"k": "bool", "v": True}, {"k": "bool", "v": False}]), ("i32", [{"k": "int", "w": "i32", "v": str(x)} for x in (5, -3, 0, -10, -1)]),
+                     ("i16", [{"k": "int", "w": "i16", "v": str(x)} for x in (-2, 3, -32768, -1)]), ("i128", [{"k": "int", "w": "i128", "v": str(x)} for x in (-2**100, -5, 2**100, -2**64)]),
                      ("char", [{"k": "char", "v": c} for c in "zab"]), ("u64", [{"k": "int", "w": "u64", "v": str(x)} for x in (2**63, 1, 7)])):
         ty = {"t": "map", "k": {"t": kt}, "v": {"t": "u8"}}
         val = {"k": "map", "v": [[kk, {"k": "int", "w": "u8", "v": "1"}] for kk in keys]}
@@ -141,6 +143,10 @@ def run(tier):
         C.nontrivial(["sorted", kt])
         if len(outs) != 1:
             C.violation({"kind": "sorted-keys", "keytype": kt}, "a map with %s keys prints differently from render to render: %s" % (kt, sorted(outs)[:3]), {"outs": sorted(outs)})
+        elif keys[0]["k"] == "int":
+            printed = [int(x) for x in _re.findall(r"(-?\d+): ", next(iter(outs)))]
+            if printed != sorted(int(k_["v"]) for k_ in keys):
+                C.violation({"kind": "sorted-keys-order", "keytype": kt}, "a map with %s keys %s prints them in the order %s" % (kt, [k_["v"] for k_ in keys], printed), {"outs": sorted(outs)})
     k = len(vecs) // 2
     C.sample({"type": tyname(vecs[k]["ty"]), "value": conc(vecs[k]["val"]), "refused": vecs[k]["refused"], "lossy": vecs[k]["lossy"], "print": vecs[k]["print"]})
     C.assumptions += ["the dynamic driver makes the Serializer/Deserializer calls of derived impls (missing Option fields -> None; structs accept maps and sequences; newtype visitors accept "
